@@ -1,4 +1,5 @@
 import EpgVerif.Props.C07
+import EpgVerif.Props.C07Axes
 import EpgVerif.Tie.ApplySites
 open EpgVerif.Props.C07
 #print axioms broadcast2_comm
@@ -8,3 +9,7 @@ open EpgVerif.Props.C07
 #print axioms insert_axes_realises_append
 #print axioms setAxes_places_axis
 #print axioms EpgVerif.Tie.ApplySites.sites_as_modelled
+#print axioms EpgVerif.Props.C07Axes.placeDims_range
+#print axioms EpgVerif.Props.C07Axes.expandDims_range
+#print axioms EpgVerif.Props.C07Axes.setAxesFull_int
+#print axioms EpgVerif.Props.C07Axes.setAxesFull_int_nobatch
